@@ -281,7 +281,7 @@ void TensorCopy(tensor* asrc, tensor** adst)
   for(k = 0; k < asrc->order; k++){
     for(i = 0; i < asrc->m[k]->row; i++){
       for(j = 0; j < asrc->m[k]->col; j++){
-        setTensorValue((*adst), k, i, j, getTensorValue(asrc, k, i, j));
+        (*adst)->m[k]->data[i][j] = asrc->m[k]->data[i][j];
       }
     }
   }
